@@ -843,6 +843,48 @@ class _Dispatch(ast.NodeTransformer):
         return node
 
 
+def _dict_loops(fn):
+    """`for k, v in {K1: V1, K2: V2}.items():` (the display written in place, or bound once to a local name that has no other use)
+    becomes the loop over the pairs ((K1, V1), (K2, V2)); returns True when something changed"""
+    changed = False
+    loads, stores = {}, {}
+    for n in ast.walk(fn):
+        if isinstance(n, ast.Name):
+            (loads if isinstance(n.ctx, ast.Load) else stores).setdefault(n.id, []).append(n)
+    binds = {}
+    for n in ast.walk(fn):
+        if isinstance(n, ast.Assign) and len(n.targets) == 1 and isinstance(n.targets[0], ast.Name) and isinstance(n.value, ast.Dict) \
+                and None not in n.value.keys and n.value.keys:
+            binds[n.targets[0].id] = n
+    drop = []
+    for n in ast.walk(fn):
+        if not (isinstance(n, ast.For) and isinstance(n.iter, ast.Call) and isinstance(n.iter.func, ast.Attribute)
+                and n.iter.func.attr == "items" and not n.iter.args and not n.iter.keywords
+                and isinstance(n.target, (ast.Tuple, ast.List)) and len(n.target.elts) == 2):
+            continue
+        recv, disp = n.iter.func.value, None
+        if isinstance(recv, ast.Dict) and None not in recv.keys and recv.keys:
+            disp = recv
+        elif isinstance(recv, ast.Name) and recv.id in binds and len(stores.get(recv.id, [])) == 1 and len(loads.get(recv.id, [])) == 1:
+            disp = binds[recv.id].value
+            drop.append(binds[recv.id])
+        if disp is None or len(disp.keys) > 16:
+            continue
+        n.iter = ast.copy_location(ast.Tuple(elts=[ast.Tuple(elts=[k, v], ctx=ast.Load()) for k, v in zip(disp.keys, disp.values)],
+                                             ctx=ast.Load()), n.iter)
+        changed = True
+    if drop:
+        class _Drop(ast.NodeTransformer):
+            def visit_Assign(self, node):
+                return None if any(node is d for d in drop) else node
+        _Drop().visit(fn)
+        for n in ast.walk(fn):
+            for fld in ("body", "orelse", "finalbody"):
+                if isinstance(getattr(n, fld, None), list) and not getattr(n, fld) and fld == "body":
+                    n.body = [ast.Pass()]
+    return changed
+
+
 def const_substituted(ix, fi):
     """fi's tree as written with the package's named constants replaced by their displays (the raw tree when there are none)"""
     got = getattr(fi, "_constsub", None)
@@ -861,7 +903,11 @@ def const_substituted(ix, fi):
             node = d.visit(node)
         except RecursionError:
             pass
-    if t.changed or d.changed:
+    try:
+        dl = any(isinstance(n, ast.Dict) for n in ast.walk(node)) and _dict_loops(node)
+    except RecursionError:
+        dl = False
+    if t.changed or d.changed or dl:
         ast.fix_missing_locations(node)
         fi._constsub = node
     else:
